@@ -55,7 +55,27 @@ def bounded(check, tier):
     s.done()
 
 
+def derived(check, tier, seed):
+    from bounded.derived import derived_values
+    n = 5000 if tier == "thorough" else 600
+    s = Suite(check, "C09.derived", f"{n} values at the end of chains of <= 4 public operations: splice (str and FmtStr replacement, ranges inside, "
+              "at the end, past the end, end omitted) and append - sidecar contracts at run time, result memo-coherent", bound="chains <= 4 operations",
+              exhaustive=False)
+    vals = derived_values(seed + 2, n)
+    for k, v in enumerate(vals):
+        L = len(v.s)
+        g = vals[(k * 7 + 3) % len(vals)]
+        for new in ("", "X", g):
+            for start, end in ((0, None), (L, None), (0, L), (1, 2), (L // 2, L + 1), (0, 0), (L, L + 2)):
+                if end is not None and end < start:
+                    continue
+                s.contract_case(F.splice, dict(self=v, new_str=new, start=start, end=end), key=("d", k, repr(new)[:8], start, end))
+            s.contract_case(F.append, dict(self=v, string=new), key=("d", k, repr(new)[:8], "append"))
+    s.done()
+
+
 def run(check, tier, seed):
     for c in CONTRACTS:
         verify(c, tier, check)
     bounded(check, tier)
+    derived(check, tier, seed)
